@@ -393,12 +393,17 @@ fn main() {
     let mut m = Mon::new("C12", dispatch_all);
     m.use_hooks = true;
     if !m.replay_if_requested() {
-        if m.width_enabled(320) {
-            workload_prefix(&mut m);
-        }
-        for &bits in WIDTHS {
-            if m.width_enabled(bits) {
-                workload(&mut m, bits);
+        loop {
+            if m.width_enabled(320) {
+                workload_prefix(&mut m);
+            }
+            for &bits in WIDTHS {
+                if m.width_enabled(bits) {
+                    workload(&mut m, bits);
+                }
+            }
+            if !m.another_light_pass() {
+                break;
             }
         }
     }
